@@ -358,3 +358,33 @@ Proof.
   - intros _. split; eauto.
   - intros _. eauto.
 Qed.
+
+(* ---------------------------------------------------------------------------------------------- *)
+(* reload: whenever the new configuration builds, the firewall that is in place after reloadFirewall was built from
+   the CURRENT certificate's unsafe networks (and the unchanged overlay networks) *)
+Theorem reload_universe fw cs unsafe' changed dlca' inr outr fw' cs' :
+  reload_firewall fw cs unsafe' changed dlca' inr outr = (fw', cs') ->
+  forallb rule_valid inr && forallb rule_valid outr = true ->
+  my_unsafe (fw_conf fw') = unsafe' /\ my_nets (fw_conf fw') = my_nets (fw_conf fw).
+Proof.
+  unfold reload_firewall, reload_triggered. intros H V.
+  destruct (changed || negb (list_eqb pfx_eqb unsafe' (my_unsafe (fw_conf fw)))) eqn:T.
+  - destruct (proj2 (new_firewall_some (mkConf (my_nets (fw_conf fw)) unsafe' dlca') inr outr) V) as [f E].
+    rewrite E in H. inversion H; subst; clear H. cbn [fw_conf].
+    unfold new_firewall in E. destruct (add_rules _ inr empty_table); [|discriminate].
+    destruct (add_rules _ outr empty_table); [|discriminate]. inversion E; subst. auto.
+  - inversion H; subst; clear H. apply orb_false_iff in T as [_ T]. apply negb_false_iff in T.
+    apply (list_eqb_eq pfx_eqb pfx_eqb_eq) in T. auto.
+Qed.
+
+(* hence, after any reload whose configuration builds, Drop lets through only packets whose node-side address belongs
+   to the current certificate *)
+Theorem reload_local_authentic fw cs unsafe' changed dlca' inr outr fw' cs' incoming pkt h pr pl tracked :
+  reload_firewall fw cs unsafe' changed dlca' inr outr = (fw', cs') ->
+  forallb rule_valid inr && forallb rule_valid outr = true ->
+  drop fw' incoming pkt h pr pl tracked = VAllow ->
+  (exists n, In n (my_nets (fw_conf fw)) /\ fst n = pk_local pkt) \/ (exists u, In u unsafe' /\ contains u (pk_local pkt) = true).
+Proof.
+  intros H V D. destruct (reload_universe _ _ _ _ _ _ _ _ _ H V) as [E1 E2].
+  apply local_authentic in D. unfold local_authentic_P in D. now rewrite E1, E2 in D.
+Qed.
